@@ -163,9 +163,10 @@ def compile_fuzz(ctx):
             sv.compile(pat, custom=cm_)
         except Exception as ex:
             nm = type(ex).__name__
-            lows = [k.lower() for k in cm_]
-            if nm in ALLOWED or (nm == 'KeyError' and len(set(lows)) < len(lows)):
+            if nm in ALLOWED:
                 continue
+            # (a KeyError for two names that collide after lower-casing is not excused here: it is known finding
+            #  C06-custom-duplicate-keyerror, matched by its message in known_findings.json)
             fails.append(dict(pattern=pat, custom=cm_, error=f'{nm}: {str(ex)[:120]}'))
     sv.purge()
     return res('C06-compile-error-types', n, n, fails, f'all strings of 1-2 fragments from a {len(FRAGS)}-fragment alphabet (exhaustive) + {per * jobs} seeded strings of 3-7 fragments; {len(cases)} custom-map cases',
